@@ -93,6 +93,8 @@ def run(ctx, rep):
     def step3(ms, pi, qi, learn):
         synced, le1, failed, last_write = ms
         n = P.gnode(pi)
+        if sync_true and c04.no_sync_branch_dead(ctx, g, P, pi):
+            return None
         if n in batch_pushes:
             last_write = True
         if n in write_set or n in push_set:
@@ -101,7 +103,7 @@ def run(ctx, rep):
             le1 = False
         for origin, v in norm_learn(learn):
             cn = origin_call(origin)
-            if cn is not None and c04.any_sync_closure(ctx, g, cn) and v == "false" and sync_true:
+            if sync_true and c04.no_sync_requested(ctx, g, origin, v):
                 return None      # dead by R04.5: every request has sync = true
             if c04.len_le1_fact(g, origin, v):
                 le1 = True
